@@ -1,4 +1,61 @@
 import PestModel.Model.StackSpec
 namespace PestModel.Stack
 
+variable {α : Type}
+
+/-- Core list identity behind `clearSnapshot`: merging the child's segment `seg` into the
+parent's record yields the same parent copy and the same remaining `popped` tail. -/
+theorem clear_core (cache seg rest : List α) (len rem plen prem : Nat)
+    (hk : seg.length = len - rem) (h1 : rem ≤ len) (h2 : rem ≤ cache.length)
+    (h4 : prem ≤ plen) (h5 : prem ≤ len) :
+    ((seg.take (prem - min prem rem) ++ rest).take (plen - min prem rem)).reverse
+        ++ cache.drop (cache.length - min prem rem)
+      = (rest.take (plen - prem)).reverse
+        ++ (seg.reverse ++ cache.drop (cache.length - rem)).drop
+            ((seg.reverse ++ cache.drop (cache.length - rem)).length - prem)
+    ∧ (seg.take (prem - min prem rem) ++ rest).drop (plen - min prem rem)
+      = rest.drop (plen - prem) := by
+  have hlen : (seg.reverse ++ cache.drop (cache.length - rem)).length = len := by
+    simp; omega
+  rw [hlen]
+  by_cases hc : prem ≤ rem
+  · have hm : min prem rem = prem := by omega
+    simp only [hm, Nat.sub_self, List.take_zero, List.nil_append]
+    refine ⟨?_, trivial⟩
+    congr 1
+    have e : len - prem = seg.reverse.length + (rem - prem) := by simp; omega
+    rw [e, List.drop_length_add_append, List.drop_drop]
+    congr 1; omega
+  · have hm : min prem rem = rem := by omega
+    have hl : (seg.take (prem - rem)).length = prem - rem := by simp; omega
+    have e : plen - rem = (seg.take (prem - rem)).length + (plen - prem) := by omega
+    simp only [hm]
+    rw [e, List.take_length_add_append, List.drop_length_add_append]
+    refine ⟨?_, rfl⟩
+    rw [List.drop_append_of_le_length (by simp; omega), List.drop_reverse,
+      List.reverse_append, List.append_assoc]
+    have e2 : seg.length - (len - prem) = prem - rem := by omega
+    rw [e2]
+
+/-- Growing the current stack keeps the snapshot invariant. -/
+theorem StkInvL_push (n p : Nat) (ls : List (Nat × Nat)) (h : StkInvL n p ls) :
+    StkInvL (n + 1) p ls := by
+  cases ls with
+  | nil => exact h
+  | cons lr ls =>
+    obtain ⟨len, rem⟩ := lr; simp only [StkInvL] at h ⊢
+    exact ⟨h.1, by omega, h.2.2.1, h.2.2.2⟩
+
+/-- `absSaved` looks at the current stack only through its bottom `rem` elements. -/
+theorem absSaved_congr_cur (cur cur' popped : List α) (ls : List (Nat × Nat))
+    (h : ∀ len rem l, ls = (len, rem) :: l →
+      cur.drop (cur.length - rem) = cur'.drop (cur'.length - rem)) :
+    absSaved cur popped ls = absSaved cur' popped ls := by
+  cases ls with
+  | nil => rfl
+  | cons lr ls =>
+    obtain ⟨len, rem⟩ := lr
+    simp only [absSaved]
+    rw [h len rem ls rfl]
+
 end PestModel.Stack
